@@ -249,11 +249,11 @@ static str jesc(const str &s) { str o; for (unsigned char c : s) { if (c == '"' 
 
 int main(int argc, char **argv) {
   str drv = "D1", out, replay; int bound = 2; double deadline = 1e18, per_exec = 10; bool prune = false; bool have_replay = false;
-  long max_exec = -1;
+  long max_exec = -1; bool hb = false; str dump_hb;
   for (int i = 1; i < argc; i++) { str a = argv[i]; auto nx = [&]() { return str(i + 1 < argc ? argv[++i] : ""); };
     if (a == "--driver") drv = nx(); else if (a == "--workers") W_ = atoi(nx().c_str()); else if (a == "--tasks") T_ = atoi(nx().c_str());
     else if (a == "--bound") bound = atoi(nx().c_str()); else if (a == "--out") out = nx(); else if (a == "--deadline") deadline = now_s() + atof(nx().c_str());
-    else if (a == "--prune") prune = true; else if (a == "--replay") { replay = nx(); have_replay = true; } else if (a == "--variant") DRV_VARIANT = atoi(nx().c_str());
+    else if (a == "--prune") prune = true; else if (a == "--hb") hb = true; else if (a == "--dump-hb") dump_hb = nx(); else if (a == "--replay") { replay = nx(); have_replay = true; } else if (a == "--variant") DRV_VARIANT = atoi(nx().c_str());
     else if (a == "--exec-timeout") per_exec = atof(nx().c_str()); else if (a == "--max-exec") max_exec = atol(nx().c_str()); }
   DRV = driver_by_name(drv);
   if (!DRV) { fprintf(stderr, "unknown driver\n"); return 2; }
@@ -277,7 +277,11 @@ int main(int argc, char **argv) {
   }
 
   // BFS over preemption cost
+  // --hb: no preemption bound; the search is closed by state matching on the happens-before state (sched.c): an alternative
+  // (state, thread) is expanded once.  Depth-first (LIFO) to keep the frontier small.
+  if (hb) bound = 0;
   struct Item { std::vector<uint8_t> prefix; };
+  std::set<uint64_t> hb_states; long hb_pruned = 0;
   std::vector<std::deque<Item>> level(bound + 2);
   level[0].push_back({{}});
   long execs = 0, transitions = 0; std::map<int, long> outcomes; std::set<uint64_t> states;
@@ -291,7 +295,7 @@ int main(int argc, char **argv) {
   for (int b = 0; b <= bound && complete; b++) {
     while (!level[b].empty()) {
       if (now_s() > deadline || (max_exec >= 0 && execs >= max_exec)) { complete = false; break; }
-      Item it = level[b].front(); level[b].pop_front();
+      Item it; if (hb) { it = level[b].back(); level[b].pop_back(); } else { it = level[b].front(); level[b].pop_front(); }
       Exec e = run_once(it.prefix, per_exec);
       if (e.hang) {   // re-run alone with a 10x limit before calling it non-termination
         Exec e2 = run_once(it.prefix, per_exec * 10);
@@ -300,12 +304,15 @@ int main(int argc, char **argv) {
       execs++; per_bound[b]++; transitions += e.npoints; outcomes[e.outcome]++;
       if (e.npoints > maxpts) maxpts = e.npoints;
       for (auto &p : e.pts) states.insert(p.state_hash);
+      for (int i = 0; i < e.npoints; i++) { const sx_point_t &p = e.pts[i]; hb_states.insert(p.hb_hash);
+        if (hb && i >= (int)it.prefix.size()) seen_prune.insert(p.hb_hash * 1000003ULL + (uint64_t)p.enabled[p.chosen] * 131); }
       if (samples.size() < 3 || (execs % 5000 == 0 && samples.size() < 6)) samples.push_back("{\"schedule\":\"" + sched_str(it.prefix) + "\",\"preemptions\":" + std::to_string(b) + ",\"trace\":\"" + jesc(trace_str(e)) + "\"}");
       if (e.outcome != SX_OUT_OK) {
         str key = std::to_string(e.outcome) + "|" + e.detail.substr(0, 60) + "|" + e.race_text.substr(0, 80);
         if (!viol_keys.count(key) && viols.size() < 50) { viol_keys.insert(key);
           std::vector<uint8_t> full; for (auto &p : e.pts) full.push_back(p.chosen);
-          viols.push_back({e.outcome, e.detail, full, b, trace_str(e), e.race_text}); }
+          int pre = b; if (hb) { pre = 0; for (auto &p : e.pts) if (p.running_enabled && p.chosen != 0) pre++; }
+          viols.push_back({e.outcome, e.detail, full, pre, trace_str(e), e.race_text}); }
       }
       if (e.outcome == SX_OUT_DIVERGED) continue;
       // expand alternatives at every point after the prefix
@@ -316,7 +323,8 @@ int main(int argc, char **argv) {
           for (int alt = 1; alt < p.nenabled; alt++) {
             int nc = cost + (p.running_enabled ? 1 : 0);
             // total cost of the new schedule = preemptions inside the prefix (cost so far) + this switch
-            if (nc > bound) continue;
+            if (hb) { nc = 0; uint64_t k = p.hb_hash * 1000003ULL + (uint64_t)p.enabled[alt] * 131; if (seen_prune.count(k)) { hb_pruned++; continue; } seen_prune.insert(k); }
+            else if (nc > bound) continue;
             if (prune) { uint64_t k = p.state_hash * 1000003ULL + (uint64_t)p.enabled[alt] * 131 + nc; if (seen_prune.count(k)) { pruned++; continue; } seen_prune.insert(k); }
             Item ni; ni.prefix.reserve(i + 1);
             for (int j = 0; j < i; j++) ni.prefix.push_back(e.pts[j].chosen);
@@ -329,10 +337,11 @@ int main(int argc, char **argv) {
     }
     if (complete) completed_bound = b;
   }
+  if (!dump_hb.empty()) { FILE *g = fopen(dump_hb.c_str(), "w"); for (uint64_t h : hb_states) fprintf(g, "%016lx\n", (unsigned long)h); fclose(g); }
   FILE *f = out.empty() ? stdout : fopen(out.c_str(), "w");
   fprintf(f, "{\"driver\":\"%s\",\"workers\":%d,\"tasks\":%d,\"variant\":%d,\"bound\":%d,\"completed_bound\":%d,\"complete\":%s,\"prune\":%s,\"pruned\":%ld,\"tsan\":%d,"
-             "\"executions\":%ld,\"transitions\":%ld,\"states\":%zu,\"max_choice_points\":%ld,\"wall_s\":%.2f,\"per_bound\":[",
-          drv.c_str(), W_, T_, DRV_VARIANT, bound, completed_bound, complete ? "true" : "false", prune ? "true" : "false", pruned, SX_TSAN, execs, transitions, states.size(), maxpts, now_s() - t0);
+             "\"hb\":%s,\"hb_states\":%zu,\"hb_pruned\":%ld,\"executions\":%ld,\"transitions\":%ld,\"states\":%zu,\"max_choice_points\":%ld,\"wall_s\":%.2f,\"per_bound\":[",
+          drv.c_str(), W_, T_, DRV_VARIANT, bound, completed_bound, complete ? "true" : "false", prune ? "true" : "false", pruned, SX_TSAN, hb ? "true" : "false", hb_states.size(), hb_pruned, execs, transitions, states.size(), maxpts, now_s() - t0);
   for (int b = 0; b <= bound; b++) fprintf(f, "%s%ld", b ? "," : "", per_bound[b]);
   fprintf(f, "],\"outcomes\":{");
   { bool first = true; for (auto &kv : outcomes) { fprintf(f, "%s\"%d\":%ld", first ? "" : ",", kv.first, kv.second); first = false; } }
